@@ -12,7 +12,7 @@ BUDGET = {'quick': (12000, 80.0), 'thorough': (250000, 1500.0)}
 CHUNK = 20
 RULE = ('client and server stacks (J1939-21) with MemoryAccess on bypassed CAs; blocking read/write in a simulated client application thread, a simulated server '
         'application thread answering notifications with respond(); count x size = 1..255 bytes (classes 1, 7, 8, 9, 255, random), object sizes 1/2/4/8, signed/unsigned, '
-        'raw/converted, direct/spatial, seed/key on or off with arbitrary seeds, 1-4 transactions back to back on the same objects, latency (0, 5 ms]; DM14 memory model. '
+        'raw/converted, direct/spatial, seed/key on or off with arbitrary seeds, 1-4 transactions on the same objects with pauses from none at all to 0.4 s, the same object read repeatedly from one list the serving application keeps, served bytes at the limits of the signed range, latency (0, 5 ms]; DM14 memory model. '
         'non-trivial = at least one transaction completed with data; distinct = distinct scenario JSON')
 FAULT_COUNTERS = {'seed/key exchanges (runs)': 'with_key', 'back-to-back transactions (runs)': 'back_to_back'}
 REQUIRED_PROBES = ['reads', 'writes', 'multi_packet', 'single_frame', 'with_key', 'values_converted', 'back_to_back']
